@@ -205,6 +205,11 @@ def known(entry):
     return None
 
 
+def numsorted(paths):
+    """cases_10.v after cases_9.v (the case index of a mismatch is shard number * per_shard + position)"""
+    return sorted(paths, key=lambda q: int(re.findall(r"_(\d+)\.v$", q)[0]))
+
+
 def run(ctx):
     ctx.cov["trusted_base"] = vlib.TRUSTED_BASE_COMMON + [
         "Coq-Interval 4.x `interval`/`integral` (reflexive, decides every anchor goal); Coquelicot RInt for erf",
@@ -240,7 +245,7 @@ def run(ctx):
     # ---- exact part
     meta = json.load(open(os.path.join(ctx.dir, "cases.meta.json")))
     vlib.merge_meta(ctx, meta)
-    res = vlib.eval_shards(sorted(glob.glob(os.path.join(ctx.dir, "cases_*.v"))))
+    res = vlib.eval_shards(numsorted(glob.glob(os.path.join(ctx.dir, "cases_*.v"))))
     ctx.oblige(len(res), sum(1 for r in res if r["ok"]))
     cases = vlib.load_jsonl(os.path.join(ctx.dir, "cases.jsonl"))
     bad_cases = []
@@ -256,7 +261,7 @@ def run(ctx):
     # ---- anchors
     anchors = vlib.load_jsonl(os.path.join(ctx.dir, "anchors.jsonl"))
     ameta = json.load(open(os.path.join(ctx.dir, "anchors.meta.json")))
-    ares = eval_anchor_shards(sorted(glob.glob(os.path.join(ctx.dir, "anchors_*.v"))))
+    ares = eval_anchor_shards(numsorted(glob.glob(os.path.join(ctx.dir, "anchors_*.v"))))
     okset = set(i for r in ares for i in r["ok"])
     failset = set(i for r in ares for i in r["fail"])
     goals = [a for a in anchors if not a.get("skip") and not a.get("nonfinite")]
